@@ -26,6 +26,16 @@ type Contract struct {
 	MustDefer []string // callee names that must be called through defer (so that they also run on a panicking exit)
 	NoStores []string // struct field names that the function (and what it inlines) must never store to
 	FullLoops []string // loop keys: the loop is left only through its header test
+	Confines  []*Confine // parameters whose contents the function reads only through the listed callees
+	OnSlices  []*OnStore // assertions at every slice expression p[lo:hi] of the named parameter ($lo, $hi)
+}
+
+// Confine: the function itself never indexes, slices, copies, converts, stores or returns the named
+// (slice) parameter; it may take its length, range over it (the current element only) and hand it to
+// the listed callees. Slices covered by an on-slice clause are checked against that clause instead.
+type Confine struct {
+	Param string
+	To    []string
 }
 
 type Clause struct {
